@@ -254,7 +254,9 @@ func scopesC05(thorough bool) []Scope {
 	scs = append(scs, kmpScope(thorough))
 	sw := shellWalkScope(k(8, 9)) // every walk as the shell, fixed hole: several equal / nested outer rings for one hole
 	sw.Cfgs = allCfgs
-	scs = append(scs, sw)
+	hw := holeWalkOnShellScope(k(8, 9))
+	hw.Cfgs = allCfgs
+	scs = append(scs, sw, hw)
 	return append(scs, scopesRealBlocks(thorough)...)
 }
 
